@@ -460,7 +460,7 @@ class Emit:
     def wrap_ret(self, x):
         """the value a `return`/tail produces, preceded by the final values of the `&mut` parameters"""
         mp = MUT_PARAMS.get(self.fname, [])
-        if not mp or getattr(self, "in_loop", False):
+        if not mp or getattr(self, "in_loop", False) or getattr(self, "in_value", False):
             return x
         return "(" + ", ".join(mp + ([x] if x is not None else [])) + ")"
 
@@ -715,11 +715,19 @@ class Emit:
                     raise
                 ind = getattr(self, "cur_ind", 1) + 3
                 saved_ret, self.ret = self.ret, hint
+                saved_val, self.in_value = getattr(self, "in_value", False), True
+                saved_decl = getattr(self, "decl_ret", None)
+                self.decl_ret = hint
                 try:
                     thn = self.block_term(e[2], ind, None)
                     els = self.tail_term(e[3], ind, None) if e[3][0] == "if" else self.block_term(e[3], ind, None)
                 finally:
                     self.ret = saved_ret
+                    self.in_value = saved_val
+                    if saved_decl is None:
+                        del self.decl_ret
+                    else:
+                        self.decl_ret = saved_decl
                 v = self.fresh()
                 pad = "  " * (ind - 1)
                 return lc + [f"let {v} ← (if {xc} then (do\n{thn}{pad}) else (do\n{els}{pad}) : Outcome {lean_ty(hint)})"], v
@@ -995,7 +1003,7 @@ class Emit:
                    "  | 0, " + ", ".join("_" for _ in state) + " => Outcome.panic .other",
                    "  | fuel + 1, " + ", ".join(state) + " => do"]
             aux += ["    " + l for l in lc]
-            aux += [f"    if {xc} then", btxt.rstrip("\n"), "    else", f"      pure ({fin})", ""]
+            aux += [f"    if {xc} then", btxt.rstrip("\n").replace("@@FIN@@", fin), "    else", f"      pure ({fin})", ""]
             self.aux = getattr(self, "aux", []) + ["\n".join(aux)]
             call = f"{lname} prof {args + ' ' if args else ''}{fuel} {' '.join(state)}"
             if self.loop_returns:
@@ -1025,6 +1033,13 @@ class Emit:
                     self.loop_returns = True
                     return "".join(f"{pad}{l}\n" for l in ls) + f"{pad}pure (Sum.inl ({x}))\n"
                 return "".join(f"{pad}{l}\n" for l in ls) + f"{pad}pure ({self.wrap_ret(x)})\n"
+            if e[0] == "if" and e[3] is None and getattr(self, "in_loop", False) and \
+                    e[2][0] == "block" and e[2][2] is None and e[2][1] == [("expr", ("path", ["break"]))]:
+                # `if c { break; }` inside a loop: leave with the current state
+                lc, xc = self.cond(e[1])
+                pre = "".join(f"{pad}{l}\n" for l in lc)
+                els = self.stmts_term(rest, tail, ind + 1, k)
+                return pre + f"{pad}if {xc} then\n{pad}  pure (@@FIN@@)\n{pad}else\n{els}"
             if e[0] == "if":
                 # statement `if` (no value): may assign variables or return early
                 return self.if_stmt(e, rest, tail, ind, k)
@@ -1272,7 +1287,9 @@ GROUP_IMPORTS = {"KPow": ["Fpdec.Gen.Consts"], "KDivRounded": ["Fpdec.Gen.KRound
                  "KDecDiv": ["Fpdec.Gen.KDivRounded"], "KDecMul": ["Fpdec.Gen.KDivRounded", "Fpdec.Model.Decimal"], "KNorm": [],
                  "KFloat": ["Fpdec.Gen.KNorm", "Fpdec.Gen.Consts", "Fpdec.Model.Core", "Fpdec.Model.Decimal"], "KRem": ["Fpdec.Gen.KPow"],
                  "KWideDiv": ["Fpdec.Gen.KWide", "Fpdec.Gen.KPow", "Fpdec.Gen.Consts", "Fpdec.Model.Core"]}
-LOOP_FUEL.update({("normalize", 1): 256, ("approx_rational", 1): 32, ("rem", 1): 256})
+LOOP_FUEL.update({("normalize", 1): 256, ("approx_rational", 1): 32, ("rem", 1): 256,
+                  ("u256_idiv_u128_special_k", 1): 340282366920938463463374607431768211457,
+                  ("u256_idiv_u128_special_k", 2): 340282366920938463463374607431768211457})
 KERNELS = [
     # (group, file, fn name, self type for trait methods)
     ("KPow", "fpdec-core/src/powers_of_ten.rs", "ten_pow", None),
@@ -1299,6 +1316,7 @@ KERNELS = [
     ("KWide", "fpdec-core/src/lib.rs", "u128_mul_u128", None),
     ("KWideDiv", "fpdec-core/src/lib.rs", "u128_msb", None),
     ("KWideDiv", "fpdec-core/src/lib.rs", "u256_idiv_u64", None),
+    ("KWideDiv", "fpdec-core/src/lib.rs", "u256_idiv_u128_special", None, {"as": "u256_idiv_u128_special_k"}),
     ("KWideDiv", "fpdec-core/src/lib.rs", "u256_idiv_u128", None),
     ("KWideDiv", "fpdec-core/src/lib.rs", "i128_shifted_div_mod_floor", None, {"as": "i128_shifted_div_mod_floor_k"}),
     ("KWideDiv", "fpdec-core/src/lib.rs", "i256_div_mod_floor", None, {"as": "i256_div_mod_floor_k"}),
